@@ -220,6 +220,14 @@ json generate(uint64_t seed, uint64_t idx, int tier)
 			steps.push_back(m);
 		}
 	}
+	// a rejected probe into a surviving (re-used) context: return code and diagnostics must not depend on what was
+	// parsed into it before (its values legitimately do)
+	if (r.chance(1, 2)) {
+		static const char *bad[] = {"a = 1\nl = {1, zz}\n", "\n\n\nb = maybe\n", "# c\n/* x\n y */\nf = 1e999\n", "s = \"two\nlines\"\nzzz = 1\n"};
+		json ps = parse_step((int)r.below(nclients), (int)r.below(nctx), "buf", bad[r.below(4)]);
+		ps["ctxprobe"] = 1;
+		steps.push_back(ps);
+	}
 	plan["steps"] = steps;
 	plan["params"] = {{"history", kinds}, {"clients", nclients}, {"probes", probe_steps}};
 	return plan;
@@ -347,6 +355,34 @@ JudgeOut judge(const json &plan)
 		}
 	}
 
+	// ---- O-ctx: a rejected probe into a re-used context reports as into a fresh one
+	if (out.viol.empty())
+		for (size_t i = 0; i < plan["steps"].size(); i++) {
+			const json &st = plan["steps"][i];
+			if (!st.value("ctxprobe", 0))
+				continue;
+			const OpResult *bp = nullptr;
+			for (auto &o : base.ops)
+				if (o.index == (int)i)
+					bp = &o;
+			if (!bp || bp->skipped)
+				continue;
+			json solo = plan;
+			json init = step(st.value("cl", 0), "init", st.value("c", 0));
+			solo["steps"] = json::array({init, st});
+			solo.erase("params");
+			RunResult fr = execute(solo);
+			add_exec_counters(out, fr);
+			if (fr.ops.size() < 2)
+				continue;
+			out.k.add("probe.rejected_probe_into_reused_context");
+			const OpResult &fo = fr.ops[1];
+			if (bp->ret != fo.ret || diag_str(*bp) != diag_str(fo))
+				out.viol.push_back({"O-ctx:diags", "a rejected parse into a re-used context reports differently than into a fresh context: ret=" + std::to_string(bp->ret) + " diagnostics " + diag_str(*bp) + " vs ret=" +
+									   std::to_string(fo.ret) + " diagnostics " + diag_str(fo) + " (fresh)",
+						    nullptr});
+		}
+
 	// ---- O-solo: each client's outcomes equal its solo run
 	int nclients = plan.contains("params") ? plan["params"].value("clients", 1) : 1;
 	if (out.viol.empty() && nclients > 1) {
@@ -388,7 +424,7 @@ Property P = [] {
 		 "distinct = distinct event-kind sequences (the history), all non-trivial";
 	p.assumptions = {"the probe set and event texts are fixed by the generator; outcomes compared are return code, diagnostics (file,line) and the canonical dump",
 			 "O-scrub resets the scanner object's .data/.bss, cfg_yylval and errno between API calls; a correct library cannot observe that"};
-	p.probes = {"parse_begun_outside_INITIAL", "parse_failed_inside_included_file", "two_clients_interleaved"};
+	p.probes = {"parse_begun_outside_INITIAL", "parse_failed_inside_included_file", "two_clients_interleaved", "rejected_probe_into_reused_context"};
 	p.components = {{"confuse.c", "real"}, {"lexer.l (flex 2.6.4 generated)", "real"}, {"glibc stdio/strtol/strtod", "real"}, {"allocator", "stub: accounting wrappers over the real heap"},
 			{"file namespace (fopen/stat)", "stub: in-memory tree"}, {"getenv", "stub: simulated environment"}, {"user callbacks", "stub: simulator parties"}, {"exit/abort/assert", "stub: recorded and unwound"}};
 	p.quick_seconds = 20;
